@@ -156,7 +156,9 @@ impl<R: Read> CharRead for CharReader<R> {
             let err = str::from_utf8(buf).expect_err("the start of buf should be invalid utf-8");
             assert_eq!(err.valid_up_to(), 0, "the error should be a prefix");
 
-            let invalid_prefix = err.error_len().expect("we should have at least 4 bytes");
+            // no error length: the input ended inside a multi-byte sequence,
+            // the whole remainder is the invalid sequence.
+            let invalid_prefix = err.error_len().unwrap_or(buf.len());
 
             let bad_bytes = buf[..invalid_prefix].to_vec();
 
@@ -216,7 +218,7 @@ impl<R: Read> CharRead for CharReader<R> {
 
             match self.read_chunk() {
                 Err(e) => return Some(Err(e)),
-                Ok(0) => return Some(Err(bad_bytes_error(&self.buf))),
+                Ok(0) => return Some(Err(bad_bytes_error(&self.buf[self.pos..]))),
                 Ok(_) => {
                     // successfully filled the buffer with another chunk of data
                 }
